@@ -205,6 +205,23 @@ func runC17(c *Ctx) {
 		}
 		containsCase(c, fs, fmt.Sprintf("l%d", i), content, [][]byte{needle})
 	}
+	// (3b) needles of 64 KiB and more (the window is sized after the longest needle)
+	for bi, L := range []int{65536, 100000} {
+		for oi, pos := range []int{0, 1000, 70000, 131071} {
+			content := make([]byte, 260000)
+			for q := range content {
+				content[q] = byte('a' + q%3)
+			}
+			needle := make([]byte, L)
+			for q := range needle {
+				needle[q] = byte('p' + (q*7)%5)
+			}
+			if oi != 1 { // offset 1000: the needle is absent
+				copy(content[pos:], needle)
+			}
+			containsCase(c, fs, fmt.Sprintf("n%d_%d", bi, oi), content, [][]byte{needle})
+		}
+	}
 	// (4) readers that deliver fewer bytes than asked (network files do): at most k bytes per Read
 	for i := 0; i < nLong*3; i++ {
 		kmax := r.Range(1, 9)
